@@ -48,6 +48,9 @@ def connect_response(kind, frac=False):
         'open': ('resp', 200, o, 'text/plain'),
         'open_up': ('resp', 200, '0' + json.dumps(dict(OPEN_UP, **FRAC) if frac else OPEN_UP), 'text/plain'),
         'open_more': ('resp', 200, o + '\x1e4first', 'text/plain'),
+        # the server ends the session in the very response that opens it
+        'open_close': ('resp', 200, o + '\x1e1', 'text/plain'),
+        'open_more_close': ('resp', 200, o + '\x1e4first\x1e1', 'text/plain'),
     }[kind]
 
 
@@ -169,7 +172,7 @@ class Lifecycle(core.Scenario):
 
     def note_cause_for(self, name, resp):
         st = self.world.nstep
-        if name in ('close',):
+        if name in ('close', 'open_close', 'open_more_close'):
             self.causes.append(('server', st))
         elif name in ('garbage', 's400', 'err', 'silence', 'refused', 'timeout'):
             self.causes.append(('transport', st))
@@ -383,7 +386,7 @@ class Lifecycle(core.Scenario):
         p = self.params
         tr0 = (self.transports or ['polling'])[0]
         if tr0 == 'polling':
-            return p['connect'] in ('open', 'open_up', 'open_more')
+            return p['connect'] in ('open', 'open_up', 'open_more', 'open_close', 'open_more_close')
         return p.get('ws', ['accept', 'open'])[:2] == ['accept', 'open']
 
     def observation(self):
@@ -507,6 +510,10 @@ def param_list(ctx):
         # 1. connect answers on polling
         for ca in CONNECT_FAIL + CONNECT_OK:
             ps.append({'impl': impl, 'transports': ['polling'], 'connect': ca, 'polls': ['close'] if ca in CONNECT_OK else []})
+        for ca in ('open_close', 'open_more_close'):
+            ps.append({'impl': impl, 'transports': ['polling'], 'connect': ca, 'polls': []})
+            ps.append({'impl': impl, 'transports': ['polling'], 'connect': ca, 'polls': [], 'effects': {'disconnect': ['sleep', 0.25]}})
+            ps.append({'impl': impl, 'transports': ['polling'], 'connect': ca, 'polls': [], 'legacy': True})
         # 2. poll answer sequences
         for k in range(1, depth + 1):
             for seq in itertools.product(POLL_MENU, repeat=k):
